@@ -9,10 +9,10 @@ VARIABLES tag, x
 
 \* ---- item sequences up to length 4 over an alphabet with one item of every shape --------------------------
 Alpha == <<
-  It("sp", 32, <<>>), It("chr", 49, <<>>), It("chr", 97, <<>>), It("chr", 123, <<>>), It("chr", 96, <<>>),
-  It("tok", 165, <<>>), It("tok", 196, <<>>), It("tok", 203, <<>>), It("tok", 245, <<>>), It("tok", 199, <<>>),
-  It("tok", 211, <<>>), It("udg", 144, <<>>), It("raw", 6, <<>>), It("raw", 128, <<>>), It("ctl", 16, <<7>>),
-  It("ctl", 22, <<1, 13>>), It("num", 14, <<0, 0, 13, 0, 0>>), It("num", 14, <<129, 64, 0, 0, 0>>) >>
+  It("sp", 32, <<>>), It("chr", 49, <<>>), It("chr", 123, <<>>), It("chr", 96, <<>>),
+  It("tok", 165, <<>>), It("tok", 196, <<>>), It("tok", 203, <<>>), It("tok", 245, <<>>), It("tok", 211, <<>>),
+  It("udg", 144, <<>>), It("raw", 6, <<>>), It("raw", 128, <<>>), It("ctl", 16, <<7>>),
+  It("ctl", 22, <<1, 13>>), It("num", 14, <<0, 0, 13, 0, 0>>) >>
 NA == Len(Alpha)
 Idx(n) == IF n = 0 THEN {<<>>} ELSE [1..n -> 1..NA]
 ItemsOf(ix) == [k \in 1..Len(ix) |-> Alpha[ix[k]]]
@@ -69,6 +69,10 @@ FloatOK(nf) ==
   /\ NormalNF(nf) /\ \A k \in 1..5 : b[k] \in 0..255
   /\ b[1] # 0 /\ WellFormedNum(b) /\ NumNF(b) = nf /\ EncFloat(NumNF(b)) = b
   /\ NFClose(nf, nf) /\ ~NFGross(nf, nf)
+  /\ NFGross(nf, <<nf[1], nf[2], nf[3], nf[4] + 1>>)                  \* twice the value
+  /\ ~NFGross(<<0, 65535, 65535, 0>>, <<0, 32768, 0, 1>>)               \* 2^32-1 against 2^32
+  /\ \A d \in {-1, 1} : (nf[3] + d \in 0..65535) => NFClose(nf, <<nf[1], nf[2], nf[3] + d, nf[4]>>) /\ ~NFGross(nf, <<nf[1], nf[2], nf[3] + d, nf[4]>>)
+  /\ \A d \in {-2, 2} : (nf[3] + d \in 0..65535) => ~NFClose(nf, <<nf[1], nf[2], nf[3] + d, nf[4]>>)
   /\ NFGross(nf, <<1 - nf[1], nf[2], nf[3], nf[4]>>) /\ (NFGross(nf, Zero) <=> nf[4] >= -45) /\ (NFGross(Zero, nf) <=> nf[4] >= -45)
 
 \* ---- variables -------------------------------------------------------------------------------------------------
